@@ -27,6 +27,8 @@
 pub mod support;
 #[path = "c15_hw.rs"]
 mod hw;
+#[path = "c15_value.rs"]
+mod value;
 
 use crate::driver::Driver;
 use crate::report::{trunc, Oracle, Report, Stream};
@@ -1252,6 +1254,8 @@ pub fn run(driver: &Driver, seed: u64, thorough: bool, replay: Option<&serde_jso
         match r["oracle"].as_str().or(r["stream"].as_str()).unwrap_or("") {
             "c15.law1.handwritten" => rep.oracles.push(oracle_handwritten(seed, case + 1, Some(case))),
             "c15.variant-sweep" => rep.oracles.push(oracle_variant_sweep(seed, r["round"].as_u64().unwrap_or(0) + 1)),
+            "c15.value-side" => rep.oracles.push(value::oracle_value_side(&schemas, seed, 24, None)),
+            "c15.stream-values" => rep.oracles.push(value::oracle_stream_values(&schemas, seed, false)),
             "c15.law" => {
                 let m = r["model"].as_str().unwrap_or("").to_string();
                 let (a, b) = oracle_laws(&schemas, seed, case + 1, Some((case, &m)));
@@ -1275,5 +1279,7 @@ pub fn run(driver: &Driver, seed: u64, thorough: bool, replay: Option<&serde_jso
     rep.oracles.push(l2);
     rep.oracles.push(oracle_handwritten(seed, 400 * k, None));
     rep.oracles.push(oracle_variant_sweep(seed, if thorough { 40 } else { 2 }));
+    rep.oracles.push(value::oracle_value_side(&schemas, seed, 24 * k, None));
+    rep.oracles.push(value::oracle_stream_values(&schemas, seed, thorough));
     rep
 }
